@@ -5,8 +5,8 @@
 From Coq Require Import String Ascii List ZArith Bool.
 From TT Require Import Base.Outcome Base.Str Base.F64 Base.GoParse Trackaddict.Units.
 Import ListNotations.
-Open Scope string_scope.
-Open Scope Z_scope.
+Local Open Scope string_scope.
+Local Open Scope Z_scope.
 
 Record gps := mkGps { g_update : bool; g_delay : Z;
                       g_lat : f64; g_lon : f64; g_alt : f64; g_acc : f64; g_head : f64 }.
